@@ -229,6 +229,25 @@ impl ShardSplitter {
             old_shard, progress.fence_token, next
         );
 
+        if let SplitPhase::Preparation = next {
+            // Crashed before Preparation was recorded, so `start_split` may never have
+            // been issued and `run_from_phase` does not issue it. It overwrites the
+            // split state, so re-issuing it is safe whether or not the previous run
+            // got that far.
+            self.metadata
+                .start_split(
+                    old_shard,
+                    progress.new_shards.clone(),
+                    progress.split_point.clone(),
+                )
+                .await?;
+            progress.completed_phase = Some(SplitPhase::Preparation);
+            self.persist_progress(&progress).await?;
+            self.run_from_phase(&mut progress, SplitPhase::DualWrite)
+                .await?;
+            return Ok(true);
+        }
+
         self.run_from_phase(&mut progress, next).await?;
         Ok(true)
     }
